@@ -22,6 +22,21 @@ func propSpecs() map[string]*PropSpec {
 		return r
 	}
 	tokStub := "parser.Scan summarised on token-slot sources from tables derived on this run from the real Scan (78 lexemes; one-token locality validated on all lexeme pairs); native replays use the real Scan"
+	var lib []RunSpec
+	for k := int64(0); k < 56; k++ {
+		lib = append(lib, rs("H_Lib", k, 2))
+	}
+	for k := int64(0); k < 24; k++ {
+		if k == 12 || k == 13 {
+			continue // channels and bare go statements: not supported by the engine (threads only through verif.Par)
+		}
+		lib = append(lib, rs("H_Lang", k))
+	}
+	add(&PropSpec{
+		ID: "SELFLIB", Title: "engine regression: library functions on symbolic strings agree with the native run (not a property)",
+		Quick: lib, Thorough: lib, Covers: []string{"lib-case", "lang-case"},
+		Bounds: map[string]string{"quick": "56 library call groups on 2 symbolic bytes", "thorough": "same"},
+	})
 	add(&PropSpec{
 		ID: "C09", Title: "lexer partitions the source into the documented tokens",
 		Quick: []RunSpec{rs("H_C09", 0, 0), rs("H_C09", 1, 0), rs("H_C09", 2, 0), rs("H_C09", 3, 0), rs("H_C09", 3, 1), rs("H_C09", 6, 2), rs("H_C09", 5, 3), rs("H_C09", 4, 4), rs("H_C09", 4, 6), rs("H_C09", 8, 8)},
@@ -33,18 +48,30 @@ func propSpecs() map[string]*PropSpec {
 		Outside: []string{"sources longer than the bound", "BasicLit.Float64 and Uint64 of float literals (floating point)", "string values containing invalid UTF-8 together with an escape (don't-care)"},
 		Stubs:   []string{"unicode.IsSpace -> models.IsSpace (validated against the real table)", "utf8 decode/encode: engine model of the Go specification", "strings.{TrimLeft,ReplaceAll,ContainsAny} -> models", "strconv.{ParseUint,FormatUint} -> models", "fmt.Sprintf: error texts opaque"},
 	})
+	deep := func(n int64, budget int, fams ...int64) []RunSpec {
+		var r []RunSpec
+		if len(fams) == 0 {
+			for f := int64(0); f < 18; f++ {
+				fams = append(fams, f)
+			}
+		}
+		for _, f := range fams {
+			r = append(r, RunSpec{Harness: "H_C12deep", Args: []int64{f, n}, Budget: budget})
+		}
+		return r
+	}
 	add(&PropSpec{
 		ID: "C12", Title: "scanning, parsing and compiling are total", OwnsPanic: true,
-		Quick: []RunSpec{rs("H_C12", 1, 0), rs("H_C12", 2, 0), rs("H_C12", 3, 0), rs("H_C12", 4, 7), rs("H_C12", 3, 1),
+		Quick: append(deep(64, 25000000), []RunSpec{rs("H_C12", 1, 0), rs("H_C12", 2, 0), rs("H_C12", 3, 0), rs("H_C12", 4, 7), rs("H_C12", 3, 1),
 			rs("H_C12tok", 1, 2), rs("H_C12tok", 2, 2), rs("H_C12tok", 3, 2), rs("H_C12tok", 4, 2), rs("H_C12tok", 5, 4), rs("H_C12tok", 6, 4),
-			rs("H_C12names", 0), rs("H_C12names", 1), rs("H_C12names", 2), rs("H_C12names", 3), rs("H_C12names", 4), rs("H_C12names", 5), rs("H_C12names", 6), rs("H_C12names", 7)},
-		Thorough: []RunSpec{rs("H_C12", 1, 0), rs("H_C12", 2, 0), rs("H_C12", 3, 0), rs("H_C12", 5, 5), rs("H_C12", 5, 1), rs("H_C12", 5, 2), rs("H_C12", 5, 3),
+			rs("H_C12names", 0), rs("H_C12names", 1), rs("H_C12names", 2), rs("H_C12names", 3), rs("H_C12names", 4), rs("H_C12names", 5), rs("H_C12names", 6), rs("H_C12names", 7)}...),
+		Thorough: append(append(deep(128, 100000000), deep(320, 100000000, 1, 2, 5, 7, 10, 11, 12, 13, 14)...), []RunSpec{rs("H_C12", 1, 0), rs("H_C12", 2, 0), rs("H_C12", 3, 0), rs("H_C12", 5, 5), rs("H_C12", 5, 1), rs("H_C12", 5, 2), rs("H_C12", 5, 3),
 			rs("H_C12tok", 1, 0), rs("H_C12tok", 2, 0), rs("H_C12tok", 3, 0), rs("H_C12tok", 4, 2), rs("H_C12tok", 5, 2), rs("H_C12tok", 6, 4), rs("H_C12tok", 7, 4),
-			rs("H_C12names", 0), rs("H_C12names", 1), rs("H_C12names", 2), rs("H_C12names", 3), rs("H_C12names", 4), rs("H_C12names", 5), rs("H_C12names", 6), rs("H_C12names", 7)},
-		Covers: []string{"has-token", "parsed", "parse-error", "compiled", "compile-error", "walked", "has-semicolon-token"},
-		Bounds: map[string]string{"quick": "all byte strings of length <= 3, length <= 4 over the bracket/semicolon alphabet; 8 name-collision shapes with arbitrary tokens in the name slots; all token sequences of length <= 4 over the 55-lexeme vocabulary and <= 6 over the 33-lexeme vocabulary; 5 parameter maps",
-			"thorough": "all byte strings of length <= 3, <= 5 over focused alphabets; all token sequences <= 3 over the full vocabulary, <= 5 over 55 lexemes, <= 7 over 33 lexemes"},
-		Outside: []string{"inputs beyond the bounds", "the wall-clock clause (within seconds for KiB inputs): a complexity claim, not decided by bounded symbolic execution", "step budget per path 300000 SSA instructions: exhaustion is replayed natively under a 5 s watchdog"},
+			rs("H_C12names", 0), rs("H_C12names", 1), rs("H_C12names", 2), rs("H_C12names", 3), rs("H_C12names", 4), rs("H_C12names", 5), rs("H_C12names", 6), rs("H_C12names", 7)}...),
+		Covers: []string{"has-token", "parsed", "parse-error", "compiled", "compile-error", "walked", "has-semicolon-token", "kilobytes"},
+		Bounds: map[string]string{"quick": "all byte strings of length <= 3, length <= 4 over the bracket/semicolon alphabet; 8 name-collision shapes with arbitrary tokens in the name slots; all token sequences of length <= 4 over the 55-lexeme vocabulary and <= 6 over the 33-lexeme vocabulary; 5 parameter maps; 18 families of deep/long programs (nested parentheses, calls, in-lists, joins, index and sign chains, long sums, pipelines, let chains, column lists, unbalanced brackets, error-token runs, empty statements) at nesting/repetition 64 (up to 3.5 KB) with two arbitrary tokens inside, each path within 25M interpreted instructions",
+			"thorough": "all byte strings of length <= 3, <= 5 over focused alphabets; all token sequences <= 3 over the full vocabulary, <= 5 over 55 lexemes, <= 7 over 33 lexemes; deep/long families at 128 (all) and 320 (the linear ones, up to 18 KB), each path within 100M interpreted instructions"},
+		Outside: []string{"inputs beyond the bounds", "the wall-clock clause in general (a complexity claim): decided only for the listed deep/long families, as an instruction bound per path plus a native replay under a 5 s watchdog when the bound is exceeded", "step budget per path 400000 SSA instructions for the short inputs: exhaustion is replayed natively under a 5 s watchdog"},
 		Stubs:   []string{"parser.Scan summarised on token-slot sources from tables derived on this run from the real Scan (one-token locality validated on all lexeme pairs)"},
 	})
 	add(&PropSpec{
